@@ -43,7 +43,7 @@ func init() {
 		Rule: "layer 1: one harness over the rendered bytes (opaque), whether they parse, the OS pre-state; layer 2: one harness per naming/comment function over all names/texts up to the byte bound; non-trivial = a path completed and reached an assertion",
 		Assumptions: []string{
 			"imports.Process returns formatted output iff its input parses, else an error (its documented behaviour)",
-			"names: [A-Za-z][A-Za-z0-9_.-]* up to 6 (quick) / 8 (thorough) bytes; free text: printable ASCII + LF up to 6 / 8 bytes",
+			"names: [A-Za-z][A-Za-z0-9_.-]* up to 6 (quick) / 7 (thorough) bytes; free text: printable ASCII + LF up to 6 / 7 bytes",
 			"unicode.* / strings.Title / cases.Title are ASCII models, differentially tested against the real functions at the start of the run",
 		},
 		Build: func(c *Ctx) ([]RunSpec, error) {
